@@ -7,11 +7,11 @@ from vx.core import Unit
 def linear_terms():
     final = '''proof {
             let raw = lin_raw(*self);
-            assert(__p2@ =~= raw.subrange(0, self.terms.len() as int)) by {
-                assert forall|i: int| 0 <= i < self.terms.len() implies #[trigger] __p2@[i] == raw[i] by { assert(*__p1[i] == self.terms[i]); } }
-            assert(__p4@ =~= raw);
-            let b = choose|b: Seq<bool>| b.len() == __p4.len() && (forall|i: int| 0 <= i < __p4.len() ==> __c2.ensures((&__p4[i],), #[trigger] b[i])) && __p5@ == sel(__p4@, b, __p4.len() as int);
-            assert forall|i: int| 0 <= i < raw.len() implies b[i] == nz(raw)[i] by { assert(__c2.ensures((&__p4[i],), b[i])); }
+            assert(__map1@ =~= raw.subrange(0, self.terms.len() as int)) by {
+                assert forall|i: int| 0 <= i < self.terms.len() implies #[trigger] __map1@[i] == raw[i] by { assert(*__refs1[i] == self.terms[i]); } }
+            assert(__chain1@ =~= raw);
+            let b = choose|b: Seq<bool>| b.len() == __chain1.len() && (forall|i: int| 0 <= i < __chain1.len() ==> __c2.ensures((&__chain1[i],), #[trigger] b[i])) && __filter1@ == sel(__chain1@, b, __chain1.len() as int);
+            assert forall|i: int| 0 <= i < raw.len() implies b[i] == nz(raw)[i] by { assert(__c2.ensures((&__chain1[i],), b[i])); }
             lemma_sel_ext(raw, b, nz(raw), raw.len() as int);
         }
         '''
@@ -21,10 +21,10 @@ def linear_terms():
         // R22: the boxed iterator is instantiated at Vec.  (Some(id), coefficient) per term in storage order, then (None, constant); items with a zero coefficient are skipped
         ensures r@ == lin_items(*self),''',
                 pipes=[],
-                rsubs=[(r'let __p5 = vec_filter\(__p4, ', 'let __c2 = ', 1), (r'\); __p5 \}', '; let __p5 = vec_filter(__p4, __c2); __p5 }', 1)],
+                rsubs=[(r'let __filter1 = vec_filter\(__chain1, ', 'let __c2 = ', 1), (r'\); __filter1 \}', '; let __filter1 = vec_filter(__chain1, __c2); __filter1 }', 1)],
                 closures=[dict(params='term', typed='term: &v1::linear::Term', ret='(Option<u64>, F64)', ensures='ret == (Some(term.id), term.coefficient)'),
                           dict(params='(_, c)', typed='__e: &(Option<u64>, F64)', ret='bool', bind='let c = &__e.1;', ensures='ret == (__e.1@ != XR::Fin(0real))')],
-                proofs=[(('before', r'__p5 \}'), final)])
+                proofs=[(('before', r'__filter1 \}'), final)])
 
 
 S = 'sorted_ids.rs'
@@ -57,18 +57,18 @@ def quadratic_terms():
         // One item per COO entry under the sorted pair (column, row), then the items of the linear part
         requires qcoo(*self),
         ensures sitems(r@) == quad_titems(*self), keys_sorted(r@),''',
-                pipes=[r'(?s)let quad = (\(0\.\.n\)\.map\(.*?\));\s*if let'],
+                pipes=[],
                 rsubs=[(r'assert_eq!\(([^;]*?), ([^;]*?)\);', r'vassert_eq(\1, \2);', 2),
-                       (r'id\.into_iter\(\)\.collect\(\)', 'SortedIds::from_iter(opt_into_vec(id))', None),
-                       (r'(?s)let quad = \{ let __p1 = (.*?); __p1 \};', r'let quad = \1; proof { assert(sitems(quad@) =~= qpart(*self)) by { assert forall|i: int| 0 <= i < quad.len() implies #[trigger] sitems(quad@)[i] == qpart(*self)[i] by { lemma_pair_key(self.columns[i], self.rows[i]); } } assert forall|j: int| 0 <= j < quad.len() implies sorted_seq((#[trigger] quad[j]).0.0@) by { lemma_pair_key(self.columns[j], self.rows[j]); } }', 1)],
+                       (r'id\.into_iter\(\)\.collect\(\)', 'SortedIds::from_iter(opt_into_vec(id))', None)],
                 closures=[dict(params='i', typed='i: usize', ret='(SortedIds, F64)', requires='i < self.columns.len() && i < self.rows.len() && i < self.values.len()',
                                ensures='ret.1 == self.values[i as int] && ret.0.0@ == skey(seq![self.columns[i as int], self.rows[i as int]])'),
                           KEYED],
-                proofs=[(('before', r'__p4 \}'), '''proof {
+                proofs=[(('after', r'let quad = __map1;'), ''' proof { assert(sitems(quad@) =~= qpart(*self)) by { assert forall|i: int| 0 <= i < quad.len() implies #[trigger] sitems(quad@)[i] == qpart(*self)[i] by { lemma_pair_key(self.columns[i], self.rows[i]); } } assert forall|j: int| 0 <= j < quad.len() implies sorted_seq((#[trigger] quad[j]).0.0@) by { lemma_pair_key(self.columns[j], self.rows[j]); } }'''),
+                        (('before', r'__chain1 \}'), '''proof {
                 let lk = lkeyed(*linear);
-                assert(sitems(__p3@) =~= lk) by { assert forall|i: int| 0 <= i < __p3.len() implies #[trigger] sitems(__p3@)[i] == lk[i] by { assert(__p3[i].1 == __p2[i].1); lemma_okey(__p2[i].0); } }
-                assert(sitems(__p4@) =~= sitems(quad@) + sitems(__p3@));
-                assert forall|j: int| 0 <= j < __p4.len() implies sorted_seq((#[trigger] __p4[j]).0.0@) by { if j >= quad.len() { let i = j - quad.len(); assert(__p4[j] == __p3[i]); lemma_okey(__p2[i].0); } }
+                assert(sitems(__map2@) =~= lk) by { assert forall|i: int| 0 <= i < __map2.len() implies #[trigger] sitems(__map2@)[i] == lk[i] by { assert(__map2[i].1 == __into1[i].1); lemma_okey(__into1[i].0); } }
+                assert(sitems(__chain1@) =~= sitems(quad@) + sitems(__map2@));
+                assert forall|j: int| 0 <= j < __chain1.len() implies sorted_seq((#[trigger] __chain1[j]).0.0@) by { if j >= quad.len() { let i = j - quad.len(); assert(__chain1[j] == __map2[i]); lemma_okey(__into1[i].0); } }
             }
             ''')])
 
@@ -83,12 +83,12 @@ def function_terms():
         ensures fn_titems_ok(r@, *self), keys_sorted(r@),''',
                 pipes=[],
                 rsubs=[(r'id\.into\(\)', 'SortedIds::from(id)', None),
-                       (r'let __p1 = vec_once\((.*?)\); __p1', r'let __p1 = vec_once(\1); proof { assert(sitems(__p1@) =~= seq![(Seq::<u64>::empty(), *c)]); } __p1', 1)],
+                       (r'let __once1 = vec_once\((.*?)\); __once1', r'let __once1 = vec_once(\1); proof { assert(sitems(__once1@) =~= seq![(Seq::<u64>::empty(), *c)]); } __once1', 1)],
                 closures=[dict(params='(id, c)', typed='__e: (Option<u64>, F64)', ret='(SortedIds, F64)', bind='let id = __e.0; let c = __e.1;', ensures='ret.1 == __e.1 && ret.0.0@ == okey(__e.0)')],
-                proofs=[(('before', r'__p3 \}'), '''proof {
+                proofs=[(('before', r'__map1 \}'), '''proof {
                     let lk = lkeyed(*linear);
-                    assert(sitems(__p3@) =~= lk) by { assert forall|i: int| 0 <= i < __p3.len() implies #[trigger] sitems(__p3@)[i] == lk[i] by { assert(__p3[i].1 == __p2[i].1); } }
-                    assert forall|j: int| 0 <= j < __p3.len() implies sorted_seq((#[trigger] __p3[j]).0.0@) by { lemma_okey(__p2[j].0); }
+                    assert(sitems(__map1@) =~= lk) by { assert forall|i: int| 0 <= i < __map1.len() implies #[trigger] sitems(__map1@)[i] == lk[i] by { assert(__map1[i].1 == __into1[i].1); } }
+                    assert forall|j: int| 0 <= j < __map1.len() implies sorted_seq((#[trigger] __map1[j]).0.0@) by { lemma_okey(__into1[j].0); }
                 }
                 ''')])
 
@@ -147,13 +147,13 @@ def polynomial_from_units():
             polynomial_ids(r).subset_of(linear_ids(l)), keys_sorted_p(r),''',
                pipes=[r'(?s)^\{\s*(.*)\.collect\(\)\s*\}\s*$'],
                rsubs=[(r'id\.into_iter\(\)\.collect\(\)', 'SortedIds::from_iter(opt_into_vec(id))', None),
-                      (r'(?s)^\{\s*\{ (.*) __p2 \}\s*\.collect\(\)\s*\}\s*$', r'{ \1 let __r = Polynomial::from_iter(__p2); __r }', 1)],
+                      (r'(?s)^\{\s*\{ (.*) __map1 \}\s*\.collect\(\)\s*\}\s*$', r'{ \1 let __r = Polynomial::from_iter(__map1); __r }', 1)],
                closures=[KEYED],
                proofs=[(('before', r'__r \}\s*$'), '''proof {
             let lk = lkeyed(l);
-            assert(sitems(__p2@) =~= lk) by { assert forall|i: int| 0 <= i < __p2.len() implies #[trigger] sitems(__p2@)[i] == lk[i] by { assert(__p2[i].1 == __p1[i].1); lemma_okey(__p1[i].0); } }
+            assert(sitems(__map1@) =~= lk) by { assert forall|i: int| 0 <= i < __map1.len() implies #[trigger] sitems(__map1@)[i] == lk[i] by { assert(__map1[i].1 == __into1[i].1); lemma_okey(__into1[i].0); } }
             if linear_fin(l) { assert(kfin(lk)) by { assert forall|i: int| 0 <= i < lk.len() implies fin((#[trigger] lk[i]).1) by { lemma_lkeyed_from(l, i); } } }
-            ''' + IDS_PROOF % dict(ids='linear_ids(l)', v='__p2', why='assert(sitems(__p2@)[i] == lk[i]); lemma_lkeyed_from(l, i); assert(lk[i].0[q] == k);') + SORT % dict(v='__p2', why='lemma_okey(__p1[i].0);') + '''
+            ''' + IDS_PROOF % dict(ids='linear_ids(l)', v='__map1', why='assert(sitems(__map1@)[i] == lk[i]); lemma_lkeyed_from(l, i); assert(lk[i].0[q] == k);') + SORT % dict(v='__map1', why='lemma_okey(__into1[i].0);') + '''
         }
         ''')])
     quad = Unit('From<Quadratic> for Polynomial', P, 'from', impl=r'impl From<Quadratic> for Polynomial \{', sig='fn from(q: Quadratic) -> Self', anyhow=False,
